@@ -166,11 +166,20 @@ impl PriceLevel {
     ) -> MatchResult {
         let mut result = MatchResult::new(taker_order_id, incoming_quantity);
         let mut remaining = incoming_quantity;
+        // Makers that display nothing and cannot replenish; re-queued on exit
+        let mut set_aside: Vec<Arc<OrderType<()>>> = Vec::new();
 
         while remaining > 0 {
             if let Some(order_arc) = self.orders.pop() {
                 let (consumed, updated_order, hidden_reduced, new_remaining) =
                     order_arc.match_against(remaining);
+
+                if consumed == 0 && hidden_reduced == 0 && updated_order.is_some() {
+                    // No progress is possible against this order: re-queueing it
+                    // right away would make the loop visit it forever.
+                    set_aside.push(order_arc);
+                    continue;
+                }
 
                 if consumed > 0 {
                     // Update visible quantity counter
@@ -240,6 +249,10 @@ impl PriceLevel {
             } else {
                 break;
             }
+        }
+
+        for order_arc in set_aside {
+            self.orders.push(order_arc);
         }
 
         result.remaining_quantity = remaining;
